@@ -248,7 +248,10 @@ func errClass(e error) string {
 	if e == nil {
 		return "no-error"
 	}
-	s := errText(e)
+	return errClassText(errText(e))
+}
+
+func errClassText(s string) string {
 	switch {
 	case strings.Contains(s, "Illegal character"):
 		return "illegal-char"
@@ -338,7 +341,7 @@ type result struct {
 var verbose bool
 
 var confirmMu sync.Mutex
-var confirmState = map[string]int{} // 0 not started, 1 running, 2 done
+var confirmState = map[string]int{}
 
 // violate reports one violating case. The description is built only for the first case of a
 // key (the engine prints and stores only that one); later cases of the key are just counted.
@@ -424,65 +427,90 @@ func reportMinimal() {
 	}
 }
 
+// realCallReturns runs the real EncodeHighLevel on an input the stepper regards as a livelock,
+// in a goroutine that cannot be stopped (if the call really never returns it keeps one core busy
+// until the process exits), and reports whether it came back within five seconds — a million
+// times the normal cost of such a call.
+func realCallReturns(l *mc.Local, t string, h hints) bool {
+	done := make(chan struct{})
+	go func() {
+		defer func() { recover(); close(done) }()
+		shape, min, max := h.args()
+		dmenc.EncodeHighLevel(t, shape, min, max)
+	}()
+	l.Count("transitions", 1)
+	l.Count("evaluations", 1)
+	for w := 0; w < 5; w++ {
+		l.Beat("confirming livelock of EncodeHighLevel on " + show(t) + h.String())
+		select {
+		case <-done:
+			return true
+		case <-time.After(time.Second):
+		}
+	}
+	return false
+}
+
+// The stepper goes on after an encoder error, as EncodeHighLevel's dispatch loop originally
+// did. Whether the library under test still does is found out once, on the first input on which
+// it matters (a step that returns an error and leaves the state unchanged): if the real call
+// returns, the library propagates encoder errors and such inputs are evaluated normally.
+var (
+	policyOnce     sync.Once
+	policyDiscards bool
+	policyInput    string
+)
+
+func libraryDiscardsErrors(l *mc.Local, t string, h hints) bool {
+	policyOnce.Do(func() {
+		policyDiscards = !realCallReturns(l, t, h)
+		policyInput = show(t) + h.String()
+		if policyDiscards {
+			chk.Note("EncodeHighLevel discards the errors of the mode encoders (established on " + policyInput + ": the real call was still running after 5 s); inputs with a proven livelock are reported without being executed")
+		} else {
+			chk.Note("EncodeHighLevel propagates the errors of the mode encoders (established on " + policyInput + ")")
+		}
+	})
+	return policyDiscards
+}
+
+// isLivelock decides whether the pre-screened input must not be handed to the real entry point.
+func isLivelock(l *mc.Local, t string, h hints, p pre) bool {
+	if !p.avail || !p.livelock {
+		return false
+	}
+	last := p.steps[len(p.steps)-1]
+	if last.err == nil {
+		return true // no error involved: the state repetition alone proves it
+	}
+	return libraryDiscardsErrors(l, t, h)
+}
+
 func reportHang(l *mc.Local, r *result, t string, h hints, p pre, rc rcase) {
 	last := p.steps[len(p.steps)-1]
 	key := "C02/hang/" + keyMode(last.mode) + "-" + errClass(last.err)
-	confirmed := false
 	what := func() string {
 		how := "state unchanged by a dispatch step"
 		if !p.proven {
 			how = fmt.Sprintf("%d dispatch steps without reaching the end", len(p.steps))
 		}
-		w := fmt.Sprintf("EncodeHighLevel(%s%s) never returns: the %s encoder at input position %d returns the error %q, the dispatch loop discards it and calls the same encoder on the same state again (%s)",
-			show(t), h, keyMode(last.mode), last.p0, errText(last.err), how)
-		if confirmed {
-			w += "; confirmed: the real call was still running after 5 s"
+		if last.err == nil {
+			return fmt.Sprintf("EncodeHighLevel(%s%s) never returns: the %s encoder at input position %d neither consumes input nor writes codewords nor changes mode (%s)",
+				show(t), h, keyMode(last.mode), last.p0, how)
 		}
-		return w
+		return fmt.Sprintf("EncodeHighLevel(%s%s) never returns: the %s encoder at input position %d returns the error %q, the dispatch loop discards it and calls the same encoder on the same state again (%s; the real call on %s was still running after 5 s)",
+			show(t), h, keyMode(last.mode), last.p0, errText(last.err), how, policyInput)
 	}
-	if !knownKeys[key] {
+	if last.err == nil {
 		confirmMu.Lock()
-		state := confirmState[key]
-		if state == 0 {
-			confirmState[key] = 1
-		}
+		first := confirmState[key] == 0
+		confirmState[key] = 1
 		confirmMu.Unlock()
-		if state == 1 {
-			// another worker is confirming this class on the real entry point and will report it
-			l.Count("livelock_inputs_not_executed", 1)
-			r.bad = true
+		if first && realCallReturns(l, t, h) {
+			violate(l, r, "C02/harness/livelock-predicted-but-call-returned", func() string {
+				return "stepper predicted a livelock but EncodeHighLevel returned: " + show(t) + h.String()
+			}, rc)
 			return
-		}
-		if state == 0 {
-			// confirm once per key on the real entry point; the goroutine cannot be stopped and
-			// keeps one core busy until the process exits.
-			done := make(chan struct{})
-			go func() {
-				defer func() { recover(); close(done) }()
-				shape, min, max := h.args()
-				dmenc.EncodeHighLevel(t, shape, min, max)
-			}()
-			returned := false
-			for w := 0; w < 5 && !returned; w++ {
-				l.Beat("confirming livelock of EncodeHighLevel on " + show(t) + h.String())
-				select {
-				case <-done:
-					returned = true
-				case <-time.After(time.Second):
-				}
-			}
-			l.Count("transitions", 1)
-			l.Count("evaluations", 1)
-			confirmMu.Lock()
-			confirmState[key] = 2
-			confirmMu.Unlock()
-			if returned {
-				violate(l, r, "C02/harness/livelock-predicted-but-call-returned", func() string {
-					return "stepper predicted a livelock but EncodeHighLevel returned: " + show(t) + h.String()
-				}, rc)
-				return
-			}
-			confirmed = true
 		}
 	}
 	l.Count("livelock_inputs_not_executed", 1)
@@ -519,7 +547,7 @@ func evalCase(l *mc.Local, sub, t string, h hints, level int) (r result) {
 	}
 
 	p := prescreen(t, h)
-	if p.avail && p.livelock {
+	if isLivelock(l, t, h, p) {
 		r.hang = true
 		l.Distinct("outcomes", "livelock")
 		reportHang(l, &r, t, h, p, rc)
@@ -555,7 +583,16 @@ func evalCase(l *mc.Local, sub, t string, h hints, level int) (r result) {
 		case !latin:
 			l.Distinct("outcomes", "refused:non-latin1")
 		case h.none() && t != "" && asciiCodewords(t) <= 1558:
-			violate(l, &r, "C02/fits-but-refused", func() string {
+			cls := errClass(err)
+			if p.avail {
+				for _, s := range p.steps {
+					if s.err != nil {
+						cls = keyMode(s.mode) + "-" + errClass(s.err) // the mode encoder whose error it is
+						break
+					}
+				}
+			}
+			violate(l, &r, "C02/fits-but-refused/"+cls, func() string {
 				return fmt.Sprintf("EncodeHighLevel(%s) without hints returns the error %q although the text fits 144x144 even in plain ASCII encodation (%d codewords)", desc, clip(errText(err)), asciiCodewords(t))
 			}, rc)
 		default:
